@@ -9,7 +9,7 @@ CAP = "repr::heap_buffer::internal::Capacity::"
 ADDS = ("core::num::<impl usize>::checked_add", "core::num::<impl usize>::wrapping_add", "core::num::<impl usize>::saturating_add")
 
 
-def size_leaves(body, e, out, ops, depth=0, seen=None):
+def size_leaves(body, e, out, ops, depth=0, seen=None, sub=None):
     """decompose a size expression into additive leaves; record the combining operators"""
     e = strip_refs(e)
     if seen is None:
@@ -28,26 +28,26 @@ def size_leaves(body, e, out, ops, depth=0, seen=None):
         if n in ADDS:
             ops.add(n.rsplit("::", 1)[1])
             for a in t["args"]:
-                size_leaves(body, body.origin_operand(a), out, ops, depth + 1, seen)
+                size_leaves(body, body.origin_operand(a), out, ops, depth + 1, seen, sub)
             return
         if n in ("core::option::Option::<T>::ok_or", "core::option::Option::<T>::and_then"):
-            size_leaves(body, body.origin_operand(t["args"][0]), out, ops, depth + 1, seen)
+            size_leaves(body, body.origin_operand(t["args"][0]), out, ops, depth + 1, seen, sub)
             if n.endswith("and_then"):
                 # the closure adds the on-heap length word when the layout needs it
                 clo = strip_refs(body.origin_operand(t["args"][1]))
-                out.append("closure:" + describe(body, clo).split("{")[0])
+                out.append("closure:" + describe(body, clo, 0, sub).split("{")[0])
             return
-        out.append(describe(body, e))
+        out.append(describe(body, e, 0, sub))
         return
     if e[0] == "field" and e[1][0] in ("bin",) and e[1][1].endswith("WithOverflow") and e[2] == 0:
         ops.add("raw:" + e[1][1])
-        size_leaves(body, e[1][2], out, ops, depth + 1, seen)
-        size_leaves(body, e[1][3], out, ops, depth + 1, seen)
+        size_leaves(body, e[1][2], out, ops, depth + 1, seen, sub)
+        size_leaves(body, e[1][3], out, ops, depth + 1, seen, sub)
         return
     if e[0] == "bin":
         ops.add("raw:" + e[1])
-        size_leaves(body, e[2], out, ops, depth + 1, seen)
-        size_leaves(body, e[3], out, ops, depth + 1, seen)
+        size_leaves(body, e[2], out, ops, depth + 1, seen, sub)
+        size_leaves(body, e[3], out, ops, depth + 1, seen, sub)
         return
     if e[0] == "field" and e[1][0] == "downcast":
         # Ok / Some payload
@@ -59,13 +59,13 @@ def size_leaves(body, e, out, ops, depth=0, seen=None):
         if inner[0] == "call":
             ct = body.term(inner[1])
             if callee_name(ct).endswith("::branch"):
-                size_leaves(body, body.origin_operand(ct["args"][0]), out, ops, depth + 1, seen)
+                size_leaves(body, body.origin_operand(ct["args"][0]), out, ops, depth + 1, seen, sub)
                 return
-        size_leaves(body, inner, out, ops, depth + 1, seen)
+        size_leaves(body, inner, out, ops, depth + 1, seen, sub)
         return
     if e[0] == "phi":
         for x in e[1]:
-            size_leaves(body, x, out, ops, depth + 1, seen)
+            size_leaves(body, x, out, ops, depth + 1, seen, sub)
         return
     if e[0] == "mem" or e[0] == "local":
         # a `let mut alloc_size` updated in place (32-bit): union of its definitions
@@ -76,9 +76,9 @@ def size_leaves(body, e, out, ops, depth=0, seen=None):
         for d in ds:
             x = ("call", d[0]) if d[1] == "term" else body.origin_rvalue(d[2])
             if x != e:
-                size_leaves(body, x, out, ops, depth + 1, seen)
+                size_leaves(body, x, out, ops, depth + 1, seen, sub)
         return
-    out.append(describe(body, e))
+    out.append(describe(body, e, 0, sub))
 
 
 def rule_layout_agreement(ctx, rule="LAYOUT"):
@@ -110,32 +110,39 @@ def rule_layout_agreement(ctx, rule="LAYOUT"):
                 t = lfc.term(fb)
                 leaves, ops = [], set()
                 size_leaves(lfc, lfc.origin_operand(t["args"][0]), leaves, ops)
-                want = {hdr, CAP + "as_usize(&p1)"}
+                want = {hdr, CAP + "as_usize(p1)"}
                 got = set(l for l in leaves if not l.startswith("closure:")) - {usz}
                 ctx.ob(rule, lfc.path, "size=header+capacity", got == want and ops <= {"checked_add"},
                        how="size = checked(size_of::<Header>() + capacity [+ size_of::<usize>() in the on-heap-length layout])",
                        detail="layout size is built from %s with %s" % (sorted(leaves), sorted(ops)))
                 al = describe(lfc, lfc.origin_operand(t["args"][1]))
-                ctx.ob(rule, lfc.path, "align", al == HB + "align()", how="align = HeapBuffer::align()", detail="layout alignment is %s" % al)
+                # every allocator call takes its layout from this function, so any alignment agrees with
+                # itself; what must hold is that it is one compile-time constant (not a function of
+                # the capacity: realloc keeps the alignment of the old layout)
+                ctx.ob(rule, lfc.path, "align", re.search(r"\bp\d+\b|phi\(|mem:|local:", al) is None, how="alignment is a compile-time constant (%s)" % al, detail="layout alignment is %s: it depends on the capacity or on a run-time value, realloc reuses the old layout's alignment" % al)
     # allocator call sites take their layout from layout_from_capacity of the capacity stored in the header
-    re_hdr_cap = r"repr::heap_buffer::HeapBuffer::layout_from_capacity\(\*repr::heap_buffer::HeapBuffer::header\(p1\)\.1\)"
-    for path, b in F.bodies.items():
-        for bb, t in b.calls():
-            n = callee_name(t)
+    re_hdr_cap = r"repr::heap_buffer::HeapBuffer::layout_from_capacity\(HDR\(p1\)\.%d\)" % _cap_index(F)
+    # allocator call sites, seen from the audited functions (through private helpers they call):
+    # operands are described in the audited function's terms
+    for path, root in F.bodies.items():
+        if path not in anchors(F) or root.j["kind"] == "closure":
+            continue
+        for st in inlined_sites(root, lambda nm: nm in ("alloc::alloc::alloc", "alloc::alloc::dealloc", "alloc::alloc::realloc")):
+            n = st.name
             if n == "alloc::alloc::alloc":
-                d = describe(b, b.origin_operand(t["args"][0]))
+                d = st.desc(0)
                 ctx.ob(rule, path, "alloc-layout", d in ("ok(%slayout_from_capacity(p1))" % HB, "ok(%slayout_from_capacity(p1)).0" % HB), how="alloc(layout_from_capacity(capacity)?)", detail="alloc called with layout %s" % d)
             elif n == "alloc::alloc::dealloc":
-                d = describe(b, b.origin_operand(t["args"][1]))
+                d = st.desc(1)
                 ctx.ob(rule, path, "dealloc-layout", re.search(re_hdr_cap, d) is not None, how="dealloc(layout_from_capacity(header().capacity))", detail="dealloc called with layout %s" % d)
-                p = describe(b, b.origin_operand(t["args"][0]))
-                ctx.ob(rule, path, "dealloc-ptr", p == _alloc_start_desc(b), how="dealloc(start of the allocation, ..)", detail="dealloc called with pointer %s" % p)
+                p = st.desc(0)
+                ctx.ob(rule, path, "dealloc-ptr", p == _alloc_start_desc(root), how="dealloc(start of the allocation, ..)", detail="dealloc called with pointer %s" % p)
             elif n == "alloc::alloc::realloc":
-                d = describe(b, b.origin_operand(t["args"][1]))
+                d = st.desc(1)
                 ctx.ob(rule, path, "realloc-old-layout", re.search(re_hdr_cap, d) is not None, how="realloc(.., layout_from_capacity(header().capacity), ..)", detail="realloc called with old layout %s" % d)
                 leaves, ops = [], set()
-                size_leaves(b, b.origin_operand(t["args"][2]), leaves, ops)
-                newcap = CAP + "as_usize(&ok(%snew(p2)))" % CAP
+                size_leaves(st.body, st.body.origin_operand(st.t["args"][2]), leaves, ops, sub=st.subst[-1])
+                newcap = CAP + "as_usize(ok(%snew(p2)))" % CAP
                 want = {hdr, newcap}
                 got = set(leaves)
                 extra = got - want - {usz}
@@ -176,6 +183,15 @@ def rule_layout_agreement(ctx, rule="LAYOUT"):
                                detail="a Header field is stored in place (outside the write of a fresh header next to the allocator call): the recorded capacity can disagree with the block's real size")
 
 
+def _cap_index(F):
+    hadt = F.adts.get("repr::heap_buffer::Header")
+    if hadt:
+        for i, f in enumerate(hadt["variants"][0]["fields"]):
+            if f["name"] == "capacity":
+                return i
+    return 1
+
+
 def _alloc_start_desc(b):
     """what `self.allocation()` describes as — whatever the accessor is called, realloc and dealloc
     must hand the allocator the same pointer expression"""
@@ -183,9 +199,8 @@ def _alloc_start_desc(b):
     for path in (HB + "realloc",):
         rb = F.bodies.get(path)
         if rb:
-            for bb, t in rb.calls():
-                if callee_name(t) == "alloc::alloc::realloc":
-                    return describe(rb, rb.origin_operand(t["args"][0]))
+            for st in inlined_sites(rb, lambda nm: nm == "alloc::alloc::realloc"):
+                return st.desc(0)
     return HB + "allocation(p1)"
 
 
@@ -272,12 +287,12 @@ def rule_capacity_agreement(ctx, rule="C11-cap"):
                 capidx = i
     if hb and capidx is not None:
         d = describe(hb, hb.origin_local(0))
-        want = CAP + "as_usize(&*%sheader(p1).%d)" % (HB, capidx)
+        want = CAP + "as_usize(HDR(p1).%d)" % capidx
         ctx.ob(rule, hb.path, "reads-header.capacity", d == want, how="capacity() = header().capacity.as_usize()", detail="HeapBuffer::capacity returns %s" % d)
     au = F.bodies.get(CAP + "as_usize")
     if au:
         d = describe(au, au.origin_local(0))
-        ctx.ob(rule, au.path, "identity", d == "*p1.0", how="Capacity::as_usize returns the stored word", detail="Capacity::as_usize returns %s" % d)
+        ctx.ob(rule, au.path, "identity", d == "p1.0", how="Capacity::as_usize returns the stored word", detail="Capacity::as_usize returns %s" % d)
     # Repr::capacity and Repr::as_slice_mut agree arm by arm
     M = F.const_scalar("repr::MAX_INLINE_SIZE")
     rc = F.bodies.get("repr::Repr::capacity")
